@@ -622,12 +622,20 @@ func lengthSweep(tierQuick bool) [][]byte {
 			mk(`"` + strings.Repeat("a", l-2) + `"`)
 			mk(`"` + strings.Repeat("a", l-1)) // unterminated
 		}
+		if l >= 3 {
+			mk(strings.Repeat("\xe2\x80\xa8", l/3) + strings.Repeat("x", l%3))
+		}
 		if l >= 4 {
 			mk(`"` + strings.Repeat("a", l-4) + `\n"`)
 			mk(`"` + strings.Repeat("a", l-3) + `\"`)
 			mk(`["` + strings.Repeat("\xe4\xb8\xad", (l-4)/3) + strings.Repeat("b", (l-4)%3) + `"]`)
 		}
 		if l >= 1 {
+			// inputs whose escaped form is several times longer: the quote / html-escape loops must grow and resume mid-input
+			mk(strings.Repeat("<", l))
+			mk(strings.Repeat("\x01", l))
+			mk(strings.Repeat("\"", l))
+			mk(strings.Repeat("a", l/2) + strings.Repeat("&", l-l/2))
 			mk(strings.Repeat("7", l))
 			mk(strings.Repeat(" ", l-1) + "1")
 			mk(strings.Repeat(" ", l))
